@@ -33,25 +33,59 @@ def stable(name):
     return name
 
 
-def worker(task):
-    """Runs in a forked process: verify one (contract, mode) and discharge its obligations."""
+_EXCACHE = {}
+
+
+def get_ex(target, mode, tier):
+    """Symbolic execution of one contract (cached per worker process)."""
+    key = (target, mode)
+    if key not in _EXCACHE:
+        from spec import Spec
+        import verify
+        prog = _G['prog']
+        spec = _G.get('spec')
+        if spec is None:
+            spec = _G['spec'] = Spec(prog)
+        con = spec.sf.contracts[target]
+        ex = verify.run_contract(prog, spec, con, mode, {'tier': tier})
+        _EXCACHE[key] = (ex, spec, con)
+    return _EXCACHE[key]
+
+
+def phase1(task):
+    """Generate the obligations of one (contract, mode); run the vacuity covers."""
     target, mode, timeout, tier = task
-    from spec import Spec
     import verify
     from symex import EngineError
-    import z3
-    prog = _G['prog']
-    spec = Spec(prog)
-    con = spec.sf.contracts[target]
-    out = {'target': target, 'mode': mode, 'fn': con.fn, 'results': [], 'error': None, 'paths': 0, 'covers': [],
-           'wall': 0.0, 'bounded': 0}
+    out = {'target': target, 'mode': mode, 'fn': None, 'n': 0, 'error': None, 'paths': 0, 'covers': [], 'wall': 0.0,
+           'bounded': 0, 'results': []}
     t0 = time.time()
     try:
-        ex = verify.run_contract(prog, spec, con, mode, {'tier': tier})
-        res = verify.discharge(ex.obls, timeout)
+        ex, spec, con = get_ex(target, mode, tier)
+        out['fn'] = con.fn
+        out['n'] = len(ex.obls)
         out['paths'] = ex.paths
         out['bounded'] = getattr(ex, 'bounded_cut', 0)
-        for o, r in zip(ex.obls, res):
+        out['covers'] = verify.check_covers(ex, timeout)
+    except EngineError as e:
+        out['error'] = 'EngineError: %s' % e
+    except Exception as e:
+        out['error'] = 'Exception: %s\n%s' % (e, traceback.format_exc()[-1500:])
+    out['wall'] = time.time() - t0
+    return out
+
+
+def phase2(job):
+    """Discharge a slice of the obligations of one (contract, mode)."""
+    target, mode, timeout, tier, idxs = job
+    import verify
+    prog = _G['prog']
+    res_out = []
+    try:
+        ex, spec, con = get_ex(target, mode, tier)
+        obls = [ex.obls[i] for i in idxs]
+        res = verify.discharge(obls, timeout)
+        for o, r in zip(obls, res):
             d = {'name': r.name, 'stable': stable(r.name), 'tags': r.tags, 'status': r.status, 'time': round(r.time, 4),
                  'solver': r.solver, 'where': r.where, 'kind': r.kind, 'fn': prog.short(r.fn), 'mode': mode,
                  'reason': r.reason}
@@ -59,16 +93,10 @@ def worker(task):
                 d['model'] = r.model
                 d['probes'] = verify.probe_model(ex, spec, con, o) if r.status == 'sat' else {}
                 d['size'] = len(o.assumptions)
-            out['results'].append(d)
-        # vacuity: requires satisfiable; at least one return reachable
-        cov = verify.check_covers(ex, timeout)
-        out['covers'] = cov
-    except EngineError as e:
-        out['error'] = 'EngineError: %s' % e
+            res_out.append(d)
     except Exception as e:
-        out['error'] = 'Exception: %s\n%s' % (e, traceback.format_exc()[-1500:])
-    out['wall'] = time.time() - t0
-    return out
+        return {'target': target, 'mode': mode, 'results': [], 'error': 'Exception: %s\n%s' % (e, traceback.format_exc()[-1500:])}
+    return {'target': target, 'mode': mode, 'results': res_out, 'error': None}
 
 
 def load_known():
@@ -129,7 +157,24 @@ def main():
     ctx = mp.get_context('fork')
     results = []
     with ctx.Pool(min(a.jobs, max(1, len(tasks)))) as pool:
-        outs = pool.map(worker, [(t, m, timeout, a.tier) for (t, m) in tasks], chunksize=1)
+        outs = pool.map(phase1, [(t, m, timeout, a.tier) for (t, m) in tasks], chunksize=1)
+        jobs = []
+        for o in outs:
+            if o['error']:
+                continue
+            n = o['n']
+            chunk = 4
+            for lo in range(0, n, chunk):
+                jobs.append((o['target'], o['mode'], timeout, a.tier, list(range(lo, min(n, lo + chunk)))))
+        # heavy functions first
+        jobs.sort(key=lambda j: -next(o['n'] for o in outs if o['target'] == j[0] and o['mode'] == j[1]))
+        outs2 = pool.map(phase2, jobs, chunksize=1)
+    bykey = {(o['target'], o['mode']): o for o in outs}
+    for o2 in outs2:
+        o = bykey[(o2['target'], o2['mode'])]
+        o['results'] += o2['results']
+        if o2['error'] and not o['error']:
+            o['error'] = o2['error']
     engine_errors = [o for o in outs if o['error']]
     if engine_errors:
         for o in engine_errors:
@@ -141,6 +186,17 @@ def main():
             if propmap.counts_for(pid, r['tags']):
                 allres.append(r)
     allres += extra
+    known = load_known()
+    kf = [f for f in known.get('findings', []) if f['property'] == pid]
+    other_kf = set(f['obligation'] for f in known.get('findings', []) if f['property'] != pid)
+    notes = []
+    keep = []
+    for r in allres:
+        if r['stable'] in other_kf and pid not in r['tags'] and r['status'] != 'unsat':
+            notes.append('note: %s is an open known finding of another property; not claimed for %s' % (r['stable'], pid))
+            continue
+        keep.append(r)
+    allres = keep
     nobl = len(allres)
     by_stable = {}
     for r in allres:
@@ -159,9 +215,6 @@ def main():
         json.dump(baseline, open(os.path.join(ROOT, 'baseline_obligations.json'), 'w'), indent=1, sort_keys=True)
         print('baseline for %s: %d obligations' % (pid, len(baseline[pid])))
     base = set(baseline.get(pid, []))
-    known = load_known()
-    kf = [f for f in known.get('findings', []) if f['property'] == pid]
-    other_kf = set(f['obligation'] for f in known.get('findings', []) if f['property'] != pid)
     exit_code = 0
     lines = []
     known_hit = []
@@ -174,11 +227,8 @@ def main():
                                'where': '', 'model': None, 'probes': {}})
     for s, rs in sorted(failed.items()):
         bad = [x for x in rs if x['status'] != 'unsat'][0]
-        if s in other_kf and pid not in bad['tags']:
-            # an open finding of another property (reported there); this property does not claim that obligation
-            lines.append('note: %s is an open known finding of another property; not claimed for %s' % (s, pid))
-            continue
-        if base and s not in base and not a.write_baseline:
+        is_known = any(f['obligation'] == s for f in kf)
+        if base and s not in base and not a.write_baseline and not is_known:
             # never passed on the committed baseline: a hole in the machinery, not a verdict about the code
             lines.append('UNDECIDED (not in baseline, not claimed): %s [%s]' % (s, bad['status']))
             continue
@@ -199,7 +249,7 @@ def main():
         exit_code = 1
     for f, v in known_hit:
         print('KNOWN-FINDING: property=%s %s (%s)' % (pid, f['what'], f['obligation']))
-    for l in lines:
+    for l in sorted(set(notes)) + lines:
         print(l)
     if engine_errors or (vac and not violations):
         for n, s in vac:
